@@ -230,9 +230,16 @@ class MemSrcInc(Src):
 
 
 class MemSrcOffset(Src):
+    """register offset memory access, for example: 0x88(R8)"""
+
     tokens = [SrcImmToken]
     syntax = Syntax([Src.imm, "(", Src.reg, ")"])
     patterns = {"As": 1, "source": Src.reg, "srcimm": Src.imm}
+
+    def set_user_patterns(self, tokens):
+        if self.reg.num == r3.num:
+            # As=1 with r3 is the constant 1, and takes no offset word.
+            raise ValueError(f"Cannot use {self.reg} as base register")
 
 
 src_modes = (
